@@ -116,3 +116,27 @@ func TestC07RightHandSideSnapshot(t *testing.T) {
 		t.Errorf("the targeted attributes did not receive their values")
 	}
 }
+
+// C06/C07: an attribute keeps its own name even when it looks like a placeholder of the request;
+// placeholders only stand for names inside the expression.
+func TestC07AttributeNamedLikePlaceholder(t *testing.T) {
+	for i := 0; i < 30; i++ { // the old behaviour depended on map iteration order
+		item := map[string]*types.Item{"id": s("1"), "#id": s("zzz")}
+		li := interpreter.Language{}
+		r, err := li.Match(interpreter.MatchInput{TableName: "t", Expression: "#id = :v", ExpressionType: interpreter.ExpressionTypeFilter,
+			Item: item, Attributes: map[string]*types.Item{":v": s("1")}, Aliases: map[string]string{"#id": "id"}})
+		if err != nil || !r {
+			t.Fatalf("#id = :v with #id -> id on an item that also has an attribute named \"#id\": res=%v err=%v, want true", r, err)
+		}
+	}
+	item := map[string]*types.Item{"h": s("k"), "c": s("old")}
+	li := interpreter.Language{}
+	err := li.Update(interpreter.UpdateInput{TableName: "t", Expression: "SET #a = :x", Item: item, Attributes: map[string]*types.Item{":x": s("v")},
+		Aliases: map[string]string{"#a": "#b", "#b": "c"}})
+	if err != nil {
+		t.Fatal(err)
+	}
+	if item["c"] == nil || *item["c"].S != "old" || item["#b"] == nil || *item["#b"].S != "v" {
+		t.Errorf("SET #a = :x with #a -> \"#b\" must write the attribute named \"#b\" and leave c alone: %v", item)
+	}
+}
